@@ -414,7 +414,7 @@ func newGSIBlock(s Subtitles) (g *gsiBlock) {
 
 	// Timecode first in cue
 	if len(s.Items) > 0 {
-		g.timecodeFirstInCue = s.Items[0].StartAt
+		g.timecodeFirstInCue = s.Items[0].StartAt + g.timecodeStartOfProgramme
 	}
 	return
 }
@@ -775,8 +775,8 @@ func (t *ttiBlock) bytes(g *gsiBlock) (o []byte) {
 	o = append(o, b...)                                                                                              // Subtitle number
 	o = append(o, byte(uint8(t.extensionBlockNumber)))                                                               // Extension block number
 	o = append(o, t.cumulativeStatus)                                                                                // Cumulative status
-	o = append(o, formatDurationSTLBytes(t.timecodeIn, g.framerate)...)                                              // Timecode in
-	o = append(o, formatDurationSTLBytes(t.timecodeOut, g.framerate)...)                                             // Timecode out
+	o = append(o, formatDurationSTLBytes(t.timecodeIn+g.timecodeStartOfProgramme, g.framerate)...)                   // Timecode in (item times are relative to the start of the programme)
+	o = append(o, formatDurationSTLBytes(t.timecodeOut+g.timecodeStartOfProgramme, g.framerate)...)                  // Timecode out
 	o = append(o, validateVerticalPosition(t.verticalPosition, g.displayStandardCode))                               // Vertical position
 	o = append(o, t.justificationCode)                                                                               // Justification code
 	o = append(o, t.commentFlag)                                                                                     // Comment flag
